@@ -1125,6 +1125,9 @@ def derived_ops(rng, pyrng, sm, battery):
     ops.append(("add", "other", {}))
     ops.append(("add", "self", {}))
     ops.append(("append_scenes", "clash3", {}))
+    # a two-step derivation: the scene is re-zeroed (its base frame changes) and then added
+    ops.append(("add", "rezeroed_left", {}))
+    ops.append(("add", "rezeroed_right", {}))
     inner = [n for n in sm.forest.nodes if n != sm.forest.base and sm.forest.children(n) and sm.forest.world(n) is not None]
     for n in (inner[:2] if battery else pyrng.sample(inner, min(2, len(inner)))):
         ops.append(("subscene", "inner", {"node": n}))
@@ -1208,6 +1211,21 @@ def run_derived(run, scene, sm, op, cls, par, case, worlds):
             Tm[:3, :3] *= 25.4
             expected = expected_from(sm, Tm, worlds)
             S = S * 25.4
+        elif op == "add" and cls.startswith("rezeroed"):
+            src = None
+            D0 = scene.copy()
+            try:
+                D0.rezero()
+            except Exception:
+                run.skip("add after rezero: the rezero step itself raised (judged under derived=rezero)")
+                return 0
+            c = exq.centroid if exq.centroid is not None else np.zeros(3)
+            Tm = np.eye(4)
+            Tm[:3, 3] = -c
+            o_scene, o_sm = other_scene()
+            extra_sources.append((o_scene, snapshot(o_scene)))
+            D = (D0 + o_scene) if cls == "rezeroed_left" else (o_scene + D0)
+            expected = expected_from(sm, Tm, worlds) + expected_from(o_sm)
         elif op in ("add", "append_scenes"):
             before = snapshot(scene)
             if cls == "self":
